@@ -292,7 +292,10 @@ def family(k, blocks):
 
 class Form:
     def __init__(self, func, name, groups, build, subsets=None, scale=None, blocks=None, tier='quick', weight=1.0):
+        # form names appear in known_findings where= clauses, which are split at ',' and white space
+        name = name.replace(',', '+')
         self.func, self.name, self.groups, self.build = func, name, groups, build
+        self.unit = 'deg' if any(t in ('deg', 'deg_kw') for t in re.split(r'[+:]', name)) else 'rad'
         self.k = sum(g.n for g in groups)
         self.kinds = [g.kind for g in groups for _ in range(g.n)]
         if subsets is None:
@@ -515,6 +518,29 @@ def catalogue(tier, seed):
 
     def X4(v):
         return prep(sm.SE3, h_TRx(*v), check=False)
+    add('SE3.__init__', 'copy:X', TRx, lambda v: (lambda X=X4(v): sm.SE3(X)), subsets=mixes4)
+    add('SE3.__init__', 'list:[X+X]', [A.op('A'), A.op('B')], lambda v: (lambda X=X5(v[:5]), Y=X5(v[5:]): sm.SE3([X, Y])),
+        subsets=['1111111111', '1111100000', '0000011111'])
+    add('SE3.__init__', 'list:[T+T]+check=False', [A.op('A'), A.op('B')],
+        lambda v: (lambda: sm.SE3([h_TRzRy(*v[:5]), h_TRzRy(*v[5:])], check=False)), subsets=['1111111111', '1111100000', '0000011111'])
+    add('SE3.__init__', 'rows2:array', [A.vec3('t0', short=True), A.vec3('t1', short=True)],
+        lambda v: (lambda: sm.SE3(np.array([list(v[:3]), list(v[3:])]))))
+    add('SO3.__init__', 'copy:X', [A.ang('th')], lambda v: (lambda X=prep(sm.SO3, h_Rx(v[0]), check=False): sm.SO3(X)))
+    add('SO3.__init__', 'list:[X+X]', [A.ang('a', 'a3'), A.ang('b', 'a3')],
+        lambda v: (lambda X=prep(sm.SO3, h_Rx(v[0]), check=False), Y=prep(sm.SO3, h_Rx(v[1]), check=False): sm.SO3([X, Y])))
+    add('SO3.__init__', 'list:[R+R]+check=False', [A.ang('a', 'a3'), A.ang('b', 'a3')],
+        lambda v: (lambda: sm.SO3([h_Rx(v[0]), h_RzRy(v[1], v[0])], check=False)))
+
+    def XX(v):
+        return prep(sm.SE3, [h_TRzRy(*v[:5]), h_TRzRy(*v[5:])], check=False)
+    two = ['1111111111', '1111100000', '0000011111']
+    add('SE3.t', 'two-valued', [A.op('A'), A.op('B')], lambda v: (lambda X=XX(v): X.t), subsets=two)
+    add('SE3.R', 'two-valued', [A.op('A'), A.op('B')], lambda v: (lambda X=XX(v): X.R), subsets=two)
+    add('SE3.inv', 'two-valued', [A.op('A'), A.op('B')], lambda v: (lambda X=XX(v): X.inv()), subsets=two)
+    add('SO3.R', 'two-valued', [A.ang('a', 'a3'), A.ang('b', 'a3')],
+        lambda v: (lambda X=prep(sm.SO3, [h_Rx(v[0]), h_RzRy(v[1], v[0])], check=False): X.R))
+    add('SO3.R', 'hRx', [A.ang('th')], lambda v: (lambda X=prep(sm.SO3, h_Rx(v[0]), check=False): X.R))
+
     for nm, meth in (('SE3.t', lambda X: X.t), ('SE3.R', lambda X: X.R), ('SE3.inv', lambda X: X.inv()),
                      ('SE3.Ad', lambda X: X.Ad()), ('SE3.jacob', lambda X: X.jacob())):
         add(nm, 'hTRzRy', TRzRy(), lambda v, meth=meth: (lambda X=X5(v): meth(X)), subsets=mixes5)
@@ -769,7 +795,12 @@ def run_unit(ctx, form, k, n):
                 continue
             trivial = all(v == 0 for v in vals)
             params = {'func': form.func, 'form': form.name, 'symbolic': bits, 'point': pname,
-                      'nsym': bits.count('1'), 'allsym': int('0' not in bits)}
+                      'nsym': bits.count('1'), 'allsym': int('0' not in bits), 'unit': form.unit}
+            lo = 0
+            for g in form.groups:           # per argument group: none / some / all of its slots symbolic
+                b = bits[lo:lo + g.n]
+                params['sym_' + g.name] = 'all' if '0' not in b else ('none' if '1' not in b else 'some')
+                lo += g.n
             # 1. numeric call at the point
             try:
                 thunk = form.build(vals)
